@@ -246,6 +246,13 @@ def generic[T](x: T) -> T:
     y: T = x
     return y
 
+class Star:
+    def n(*args):
+        r = 1
+        return r
+
+star = Star()
+
 def make_late(activate):
     # the closure variable `late` has no value yet when the probe is activated
     def inner(x):
@@ -261,6 +268,8 @@ TARGETS = [
     ("nofn > x", "selector-error"),
     ("plain.nope > x", "selector-error"),
     ("plain > x", "ok"),
+    ("Star.n > r", "ok"),
+    ("star.n > r", "selector-error"),  # the receiver of a bound method that only has *args cannot be named
     ("inner > late", "ok"),            # a closure variable that is still unbound when the probe is activated
     ("inner > y", "ok"),
     ("annotated > y", "ok"),           # annotations refer to a local of the enclosing function
